@@ -1,4 +1,195 @@
-import AffVerif.Model.Distill
-/-! # C01 (theorems added below as they are proved) -/
+import AffVerif.Proofs.DistillLemmas
+import AffVerif.Props.C03
+import AffVerif.Props.C04
+import AffVerif.Props.C17
+/-!
+# C01 — distillation is faithful: the tree computes exactly the network
+
+`afftreeFromLayers` is the fold of `afftree_from_layers_generic` (`apply_func` for a linear layer;
+`compose::<false>` with the activation's schema tree followed by `infeasible_elimination` for ReLU, leaky ReLU,
+hard tanh, hard sigmoid; `compose::<true>` for the heads); `netEval` is the specification — the layer list applied
+directly to the input, no trees involved.
+
+Proved (`C01_distill_faithful_partial`): for every dimension-consistent sequence of linear layers and per-neuron
+activations of the four kinds, every precondition tree (in particular `from_poly` of a polytope, with or without
+else-branch: the distilled tree is undefined exactly where the precondition is) and every LP backend that is right
+when it answers "infeasible" — no completeness assumption: faithfulness survives any amount of missed pruning —
+the distilled tree returns the network's output at *every* input, breakpoints included.
+The theorem is over any ordered field; with the hard-sigmoid slope as a parameter it covers both the textbook
+`1/6` and the `f64` constant of the code.
+Not yet proved: sequences ending in an `argmax` / class-characterisation head (they need the tournament theorem for
+`schema::argmax`); those are covered by the correspondence check, which compares the distilled trees of generated
+networks with heads against the specification at inputs including ties.
+The rounding clause of C01 (non-representable intermediate values) is outside the reach of a theorem over fields;
+see DESIGN.md.
+-/
+set_option linter.unusedSectionVars false
+set_option linter.unusedVariables false
 namespace AV
+variable {α : Type} [Field α] [LinearOrder α] [IsStrictOrderedRing α]
+
+/-- what the fold maintains: well-formed, and every node marked infeasible has an empty path region -/
+def DistInv (n dim : Nat) (t : PT α) : Prop := PT.Shaped 2 n dim t ∧ PT.InfSound [] t
+
+theorem distill_linear (n dim : Nat) (t : PT α) (a : Aff α) (ha : a.WF) (hd : a.indim = dim)
+    (hI : DistInv n dim t) :
+    DistInv n a.outdim (PT.applyFunc t a) ∧
+    ∀ x : List α, x.length = n → PT.eval (PT.applyFunc t a) x = (PT.eval t x).map a.apply := by
+  subst hd
+  refine ⟨⟨C04_apply_func t a 2 n ha hI.1, PT.infSound_mapTerminals _ t [] hI.2⟩, fun x hx => ?_⟩
+  exact C02_apply_func t a x 2 n ha hx hI.1
+
+/-- one activation layer: compose with the schema tree `g`, then eliminate infeasible paths -/
+theorem distill_activation {σ : Type} (tol : α) (O : Oracles σ α) (hlp : InfeasibleSound O.lp)
+    (n dim : Nat) (t g : PT α) (φ : List α → List α) (s : σ)
+    (hI : DistInv n dim t) (hg : PT.Shaped 2 dim dim g)
+    (hφ : ∀ y : List α, y.length = dim → PT.eval g y = some (φ y)) :
+    DistInv n dim (infeasibleElimination tol O n (PT.compose t g) s).1 ∧
+    ∀ x : List α, x.length = n →
+      PT.eval (infeasibleElimination tol O n (PT.compose t g) s).1 x = (PT.eval t x).map φ := by
+  have hsh : PT.Shaped 2 n dim (PT.compose t g) := C04_compose t g _ 2 n dim dim hI.1 hg
+  have hinf : PT.InfSound [] (PT.compose t g) := PT.infSound_composeS Schema.compose t g _ [] hI.2
+  refine ⟨⟨C04_elim tol O n dim _ s hsh, ?_⟩, fun x hx => ?_⟩
+  · unfold infeasibleElimination
+    have hok := PT.elimOK_of_shaped _ n dim hsh
+    cases hc : PT.compose t g with
+    | node i c ks =>
+      rw [hc] at hinf hok
+      unfold PT.InfSound at hinf
+      exact PT.infSound_elimNode tol O hlp n true [] c.state (.node i c ks) s hok hinf.2 hinf.1
+  · rw [C03_elim_sound tol O hlp n dim _ s x hsh hinf, C02_compose_law' t g x 2 n dim dim hx hI.1 hg]
+    cases he : PT.eval t x with
+    | none => simp
+    | some y =>
+      simp only [Option.bind_some, Option.map_some]
+      exact hφ y (eval_length t 2 n dim x y hI.1 he)
+
+theorem distillLayer_linear {σ : Type} (tol : α) (O : Oracles σ α) (k : NetConsts α) (n : Nat) (t : PT α)
+    (dim : Nat) (a : Aff α) (s : σ) :
+    distillLayer tol O k n t dim (.linear a) s = (PT.applyFunc t a, a.outdim, s) := rfl
+
+theorem distillLayer_relu {σ : Type} (tol : α) (O : Oracles σ α) (k : NetConsts α) (n : Nat) (t : PT α)
+    (dim i : Nat) (s : σ) :
+    distillLayer tol O k n t dim (.relu i) s =
+      ((infeasibleElimination tol O n (PT.compose t (Sch.partialReLU dim i)) s).1, dim,
+       (infeasibleElimination tol O n (PT.compose t (Sch.partialReLU dim i)) s).2) := rfl
+
+theorem distillLayer_leaky {σ : Type} (tol : α) (O : Oracles σ α) (k : NetConsts α) (n : Nat) (t : PT α)
+    (dim i : Nat) (a : α) (s : σ) :
+    distillLayer tol O k n t dim (.leakyRelu i a) s =
+      ((infeasibleElimination tol O n (PT.compose t (Sch.partialLeakyReLU dim i a)) s).1, dim,
+       (infeasibleElimination tol O n (PT.compose t (Sch.partialLeakyReLU dim i a)) s).2) := rfl
+
+theorem distillLayer_hardTanh {σ : Type} (tol : α) (O : Oracles σ α) (k : NetConsts α) (n : Nat) (t : PT α)
+    (dim i : Nat) (s : σ) :
+    distillLayer tol O k n t dim (.hardTanh i) s =
+      ((infeasibleElimination tol O n (PT.compose t (Sch.partialHardTanh dim i (-1) 1)) s).1, dim,
+       (infeasibleElimination tol O n (PT.compose t (Sch.partialHardTanh dim i (-1) 1)) s).2) := rfl
+
+theorem distillLayer_hardSigmoid {σ : Type} (tol : α) (O : Oracles σ α) (k : NetConsts α) (n : Nat) (t : PT α)
+    (dim i : Nat) (s : σ) :
+    distillLayer tol O k n t dim (.hardSigmoid i) s =
+      ((infeasibleElimination tol O n (PT.compose t (Sch.partialHardSigmoid dim i k.three k.sixth k.half)) s).1, dim,
+       (infeasibleElimination tol O n (PT.compose t (Sch.partialHardSigmoid dim i k.three k.sixth k.half)) s).2) := rfl
+
+/-- dimension consistency of a layer list without heads, starting at dimension `d` (what the code asserts:
+    a linear layer fits the current dimension, an activation index is in range) -/
+def LayersOK : Nat → List (Layer α) → Prop
+  | _, [] => True
+  | d, .linear a :: ls => a.WF ∧ a.indim = d ∧ LayersOK a.outdim ls
+  | d, .relu i :: ls => i < d ∧ LayersOK d ls
+  | d, .leakyRelu i _ :: ls => i < d ∧ LayersOK d ls
+  | d, .hardTanh i :: ls => i < d ∧ LayersOK d ls
+  | d, .hardSigmoid i :: ls => i < d ∧ LayersOK d ls
+  | _, .argmax :: _ => False
+  | _, .classChar _ :: _ => False
+
+/-- output dimension after the layers -/
+def layersOut : Nat → List (Layer α) → Nat
+  | d, [] => d
+  | _, .linear a :: ls => layersOut a.outdim ls
+  | d, _ :: ls => layersOut d ls
+
+theorem distill_fold {σ : Type} (tol : α) (O : Oracles σ α) (hlp : InfeasibleSound O.lp) (k : NetConsts α)
+    (n : Nat) (layers : List (Layer α)) (t : PT α) (dim : Nat) (s : σ)
+    (hI : DistInv n dim t) (hl : LayersOK dim layers) :
+    ∀ x : List α, x.length = n →
+      PT.eval (layers.foldl (fun (acc : PT α × Nat × σ) l => distillLayer tol O k n acc.1 acc.2.1 l acc.2.2) (t, dim, s)).1 x
+        = (PT.eval t x).map (fun y => layers.foldl (fun v l => l.eval k v) y) := by
+  induction layers generalizing t dim s with
+  | nil => intro x _; simp
+  | cons l ls ih =>
+    intro x hx
+    simp only [List.foldl_cons]
+    cases l with
+    | linear a =>
+      simp only [LayersOK] at hl
+      obtain ⟨h1, h2⟩ := distill_linear n dim t a hl.1 hl.2.1 hI
+      simp only [distillLayer_linear]
+      rw [ih _ _ _ h1 hl.2.2 x hx, h2 x hx]
+      cases PT.eval t x <;> simp [Layer.eval]
+    | relu i =>
+      simp only [LayersOK] at hl
+      obtain ⟨h1, h2⟩ := distill_activation tol O hlp n dim t (Sch.partialReLU dim i) _ s hI (shaped_relu dim i)
+        (fun y hy => C17_relu dim i y hl.1 hy)
+      simp only [distillLayer_relu]
+      rw [ih _ _ _ h1 hl.2 x hx, h2 x hx]
+      cases PT.eval t x <;> simp [Layer.eval]
+    | leakyRelu i a =>
+      simp only [LayersOK] at hl
+      obtain ⟨h1, h2⟩ := distill_activation tol O hlp n dim t (Sch.partialLeakyReLU dim i a) _ s hI (shaped_leaky dim i a)
+        (fun y hy => C17_leaky_relu dim i a y hl.1 hy)
+      simp only [distillLayer_leaky]
+      rw [ih _ _ _ h1 hl.2 x hx, h2 x hx]
+      cases PT.eval t x <;> simp [Layer.eval]
+    | hardTanh i =>
+      simp only [LayersOK] at hl
+      obtain ⟨h1, h2⟩ := distill_activation tol O hlp n dim t (Sch.partialHardTanh dim i (-1) 1) _ s hI
+        (shaped_hardTanh dim i (-1) 1) (fun y hy => C17_hard_tanh dim i (-1) 1 y hl.1 hy)
+      simp only [distillLayer_hardTanh]
+      rw [ih _ _ _ h1 hl.2 x hx, h2 x hx]
+      cases PT.eval t x <;> simp [Layer.eval]
+    | hardSigmoid i =>
+      simp only [LayersOK] at hl
+      obtain ⟨h1, h2⟩ := distill_activation tol O hlp n dim t (Sch.partialHardSigmoid dim i k.three k.sixth k.half) _ s hI
+        (shaped_hardSigmoid dim i _ _ _) (fun y hy => C17_hard_sigmoid dim i _ _ _ y hl.1 hy)
+      simp only [distillLayer_hardSigmoid]
+      rw [ih _ _ _ h1 hl.2 x hx, h2 x hx]
+      cases PT.eval t x <;> simp [Layer.eval]
+    | argmax => simp [LayersOK] at hl
+    | classChar c => simp [LayersOK] at hl
+
+/-- **C01 (layers without heads)**: with a precondition tree `pre` (output dimension `d0`) the distilled tree is
+    defined exactly where `pre` is and returns the network applied to `pre`'s output; in particular for
+    `pre = from_poly(P, identity, None)`: the network's output inside `P`, undefined outside -/
+theorem C01_distill_faithful_partial {σ : Type} (tol : α) (O : Oracles σ α) (hlp : InfeasibleSound O.lp)
+    (k : NetConsts α) (n d0 : Nat) (pre : PT α) (layers : List (Layer α)) (s : σ)
+    (hpre : PT.Shaped 2 n d0 pre) (hc : PT.InfSound [] pre) (hd : PT.firstOutdim pre = some d0)
+    (hl : LayersOK d0 layers) (x : List α) (hx : x.length = n) :
+    PT.eval (afftreeFromLayers tol O k n (some pre) layers s).1 x = (PT.eval pre x).map (netEval k layers) := by
+  unfold afftreeFromLayers netEval
+  simp only [hd, Option.getD_some]
+  exact distill_fold tol O hlp k n layers pre d0 s ⟨hpre, hc⟩ hl x hx
+
+/-- without precondition: the distilled tree is total and equals the network everywhere -/
+theorem C01_distill_faithful_total_partial {σ : Type} (tol : α) (O : Oracles σ α) (hlp : InfeasibleSound O.lp)
+    (k : NetConsts α) (n : Nat) (layers : List (Layer α)) (s : σ)
+    (hl : LayersOK n layers) (x : List α) (hx : x.length = n) :
+    PT.eval (afftreeFromLayers tol O k n none layers s).1 x = some (netEval k layers x) := by
+  unfold afftreeFromLayers netEval
+  simp only
+  have hI : DistInv n n (PT.fromAff 2 (Aff.identity n : Aff α)) := by
+    refine ⟨?_, ?_⟩
+    · have := C04_ctor_from_aff 2 (Aff.identity n : Aff α) (wf_identity n)
+      rwa [outdim_identity] at this
+    · apply PT.infSound_of_fresh
+      simp only [PT.fromAff, Content.new]
+      unfold PT.Fresh
+      refine ⟨rfl, ?_⟩
+      simp [IKids.empty, PKids.Fresh]
+  rw [distill_fold tol O hlp k n layers _ n s hI hl x hx]
+  have : PT.eval (PT.fromAff 2 (Aff.identity n : Aff α)) x = some x := by
+    simp [PT.fromAff, PT.eval, IKids.empty, IKids.allNone, Content.new, apply_identity n x hx]
+  rw [this]; simp
+
 end AV
